@@ -187,3 +187,33 @@ func ZZH_C20_report() {
 	idx := n.loadAppliedIndex()
 	zz.Assert("C20.report.applied-index-of-an-executed-block", idx == base+1 || idx == base+2)
 }
+
+// ZZH_C20_snapshot: the payload of a raft snapshot taken at the applied index describes the
+// block of that index - the height the ordering loop has delivered (lastExec) - and not the
+// (possibly lagging, symbolic) height the executor has reached in the ledger: a replica caught
+// up by this snapshot synchronises blocks up to the payload height and then resumes at
+// index+1, so a lower height would leave the blocks in between undelivered for ever.
+func ZZH_C20_snapshot() {
+	lastExec := zz.U64("lastExec")
+	zz.Assume(lastExec < 1<<32)
+	n, _ := zzNode(lastExec, zz.NewStore())
+	lag := zz.U64("executorLag")
+	zz.Assume(lag <= lastExec)
+	ledgerHeight := lastExec - lag
+	n.getChainMetaFunc = func() *pb.ChainMeta {
+		return &pb.ChainMeta{Height: ledgerHeight, BlockHash: types.NewHashByStr("0x1111111111111111111111111111111111111111111111111111111111111111")}
+	}
+	// optionally some entries are published first, so that lastExec moved since the node started
+	if zz.Choice("publishFirst", 2) == 1 {
+		n.blockAppliedIndex.Store(lastExec, uint64(3))
+		ok := n.publishEntries([]raftpb.Entry{zzBatchEntry(4, lastExec+1), zzBatchEntry(5, lastExec+2)})
+		zz.Assert("C20.snapshot.setup", ok && n.lastExec == lastExec+2 && n.appliedIndex == 5)
+		zzDrain(n)
+	}
+	data, err := n.getSnapshot()
+	zz.Assert("C20.snapshot.encodes", err == nil)
+	cm := &pb.ChainMeta{}
+	zz.Assert("C20.snapshot.decodes", cm.Unmarshal(data) == nil)
+	zz.Assert("C20.snapshot.height-of-applied-index", cm.Height == n.lastExec)
+	zz.Cover("C20.snapshot.executor-lagging", lag > 0)
+}
